@@ -10,6 +10,24 @@ TEXT = {
    level_text="Every message type of the four channels is driven through the real Frontend / BackendReqHandler / Backend proxy / FrontendReqHandler / GpuBackend against a raw peer that decodes with an independently written codec: header fields, payload bytes at spec offsets, descriptors on byte 0 only and their identity; spec-encoded messages are decoded by the crate and compared with what was encoded. Exploration over lattice+random field values, every config payload length, 1..=32 regions, NEED_REPLY/REPLY_ACK/LOG_SHMFD configurations.",
    level_note="Trusted: common::spec transcription (codes, layouts); values the spec transcription could not source independently are listed in evidence.assumptions (PF bits 20/21, request 44, backend requests 9/10, VhostUserMMap/ShMemConfig layouts, empty GET_SHARED_OBJECT reply). Unknown protocol-feature bits and struct padding are not compared.",
  ),
+ "C02": dict(
+   engine="hv", design_ref="DESIGN.md 3.C02",
+   technique="runtime monitoring with a recording handler behind the real server: per-call handler-log oracle (operation, values, payload, fd identity via fstat/eventfd-id), peer byte counter for locally rejected calls",
+   level_text="Every operation of the Frontend API is called (valid arguments from lattice+random, each NEED_REPLY/REPLY_ACK configuration, direct and through the library's RwLock/RefCell adapters, at random positions of a long session) against the real BackendReqHandler serving a recording handler wrapped in the library's Mutex adapter. Oracle: exactly one new log entry, equal arguments/payload/descriptor identity (different fd number, same object), present at return time whenever a reply or negotiated ack is awaited; lent descriptors still intact. All local-rejection classes are issued against a raw peer and must leave zero bytes.",
+   level_note="Trusted: FeOp::expected_call (what 'identical arguments' means per operation). SET_LOG_BASE only in the shmfd form; SET_LOG_FD has no backend handler (observed).",
+ ),
+ "C03": dict(
+   engine="hv", design_ref="DESIGN.md 3.C03",
+   technique="fault injection at the handler (scripted outcomes) + return-value oracle + /proc blocked-reader certificate for 'bounded time'",
+   level_text="For every reply-bearing and acknowledged operation the handler outcome is scripted (success values incl. 0/max patterns, with/without file, every error variant, wrong-length/empty config, non-zero status) and the real frontend call's return is compared with it. 'Never an indefinite wait' is decided by a certificate read from /proc (caller parked in recvmsg, server parked in recvmsg or gone, SIOCINQ==0 both ways), never by the clock.",
+   level_note="Trusted: /proc/<tid>/syscall + SIOCINQ as evidence of a permanently blocked reader. Which error variant is returned is not judged; un-acknowledged set-operations are observed only.",
+ ),
+ "C08": dict(
+   engine="hv", design_ref="DESIGN.md 3.C08",
+   technique="fault enumeration on the transport: deterministic segmentation/truncation by a raw peer (next segment only after SIOCINQ==0), differential oracle against single-write delivery; sender side under a minimal non-blocking send buffer with certified partial writes",
+   level_text="Each message type is delivered to each receiver (both request servers, the reply paths of Frontend/Backend proxy/GpuBackend) in every 2-split, 3-splits, byte-by-byte and random segmentations and must produce the same result, handler log and replies as a single write; every cut offset followed by end-of-stream must yield an error (clean Disconnected only at offset 0), no dispatch and no blocked reader. Senders run on a non-blocking socket with SO_SNDBUF at its minimum while a slow reader certifies partial writes and checks bytes once/in order and descriptors on byte 0 only.",
+   level_note="Trusted: the kernel delivers ancillary data with the first byte of the skb it was sent with; SIOCINQ==0 means the receiver consumed the previous segment. Long messages have their split points sampled in quick tier.",
+ ),
  "C04": dict(
    engine="hv", design_ref="DESIGN.md 3.C04",
    technique="online trace checking: byte stream written by the real server decoded by the spec codec and compared with a reference protocol model replayed on the same request history; SIOCINQ probe for exact consumption",
